@@ -2,7 +2,7 @@
 (* C12 generator (spec -> impl): every statement sequence, up to MaxLen statements and block
    depth MaxDepth, over
        let x / let y / x <- k / y <- k / read x / read y / call f / call o.m
-       letxx: let x = x + k (the initializer reads the x that is visible before the new one exists)
+       letxx: let x = x + k (the initializer reads the x that is visible before the new one exists); letxeq: let x = x (a copy, not an alias)
        methrx / methwx: an object created on the spot whose method reads / assigns the free name x (methods see globals only)
        begin ... end / if true then S / if false then S else S' / while <once> do S
    in prefix notation (operands of if/while are an atom or a block).  TLC builds the
@@ -16,7 +16,7 @@ VARIABLES toks, stack, size
 
 MaxLen == IF "MAXLEN" \in DOMAIN IOEnv THEN CHOOSE k \in 1..8 : ToString(k) = IOEnv.MAXLEN ELSE 3
 MaxDepth == 2
-Atoms == {"letx", "lety", "letxx", "setx", "sety", "readx", "ready", "callf", "callm", "methrx", "methwx"}
+Atoms == {"letx", "lety", "letxx", "letxeq", "setx", "sety", "readx", "ready", "callf", "callm", "methrx", "methwx"}
 Depth == Len(SelectSeq(stack, LAMBDA e : e = "blk"))
 InSeq == IF stack = <<>> THEN TRUE ELSE stack[Len(stack)] = "blk"
 Pop == SubSeq(stack, 1, Len(stack) - 1)
